@@ -229,7 +229,8 @@ def power_array(value, combination):
     nneg, npos = -min(npowers), max(ppowers)
     # store negative powers at end of array, so can use negative indexing:
     p = np.zeros(1 + npos + nneg, float64)
-    p[0], p[1], p[-1] = 1.0, value, 1.0 / value
+    p[0], p[1] = 1.0, value
+    p[-1] = 1.0 / value if value != 0. else np.inf
     for c in combination:
         p[c[0]] = p[c[1][0]]
         for mult in c[1][1:]:
